@@ -2,8 +2,13 @@ package harness
 
 import (
 	"context"
+	"errors"
 	"fmt"
 	"time"
+
+	"github.com/failsafe-go/failsafe-go/bulkhead"
+	"github.com/failsafe-go/failsafe-go/circuitbreaker"
+	"github.com/failsafe-go/failsafe-go/ratelimiter"
 
 	"github.com/failsafe-go/failsafe-go"
 	"github.com/failsafe-go/failsafe-go/timeout"
@@ -111,7 +116,9 @@ func genC08(r *Rnd, t Tier) *Case {
 	if sweep {
 		op.CancelStep = never
 	}
-	cl := []Client{{Ops: []Op{op}}}
+	// the cancelled execution starts a little after the other clients so that contention for
+	// permits is the same in the base run and in every swept run
+	cl := []Client{{Ops: []Op{{Kind: "sleep", Dur: unit / 2}, op}}}
 	// optional blocker holding bulkhead permits / limiter capacity
 	for _, pi := range stack {
 		p := sc.Policies[pi]
@@ -208,6 +215,11 @@ func checkC08(c *checkCtx) {
 		_ = ambiguousT
 		if c0seq > v.OpEnd.Seq {
 			c.cov("c08.cancel_after_completion")
+			continue
+		}
+		if v.Root != nil && v.Root.Exit != nil && v.Root.Exit.Seq < c1seq && (src == SrcCtxCancel || src == SrcResultCancel) {
+			// the policies had all returned while the cancelling call was still in progress
+			c.cov("c08.completed_during_cancel_call")
 			continue
 		}
 		c.cov("c08.cancel_during_execution." + srcNames[src])
@@ -314,6 +326,10 @@ func checkC08(c *checkCtx) {
 			}
 			if bEnd != nil && sameOutcome(got.Val, got.Err, bEnd.Val, bEnd.Err) {
 				c.cov("c08.result_is_completed_result")
+			} else if gateRejection(got.Err) {
+				// refused by a bulkhead, rate limiter or breaker: that is how this execution completed, whatever the
+				// cancellation did (contention with the other clients differs from the base schedule)
+				c.cov("c08.result_is_rejection")
 			} else {
 				exp := "<base run did not complete>"
 				if bEnd != nil {
@@ -445,4 +461,8 @@ func validC08(sc *Scenario) bool {
 		}
 	}
 	return n == 1
+}
+
+func gateRejection(err error) bool {
+	return err != nil && (errors.Is(err, bulkhead.ErrFull) || errors.Is(err, ratelimiter.ErrExceeded) || errors.Is(err, circuitbreaker.ErrOpen))
 }
